@@ -1909,13 +1909,15 @@ class Interp:
             cache[key] = None
             if stmts and (mutated or not need_body):
                 saved = (self.scope, getattr(self, '_locals_cache', None), self.h)
+                marks = (len(self.imprecise), len(self.unknown_branches), len(IMPRECISION))
                 try:
                     self.scope, self.h, self._locals_cache = mod, Hooks(), None
                     self.h.keep = lambda ev: False
                     cache[key] = (None, mutated)              # (guards the recursion)
                     outs = self.block(stmts, [State({})])
                     falls = outs.get('fall', [])
-                    if len(falls) == 1 and name in falls[0][0].env and falls[0][0].env[name] is not TOP:
+                    clean = (len(self.imprecise), len(self.unknown_branches)) == marks[:2]
+                    if len(falls) == 1 and name in falls[0][0].env and falls[0][0].env[name] is not TOP and clean:
                         cache[key] = ((falls[0][0].env[name],), mutated)
                     else:
                         cache[key] = None
@@ -1923,6 +1925,7 @@ class Interp:
                     cache[key] = None
                 finally:
                     self.scope, self._locals_cache, self.h = saved
+                    del self.imprecise[marks[0]:], self.unknown_branches[marks[1]:], IMPRECISION[marks[2]:]
         hit = cache[key]
         if hit is None or hit[0] is None or (need_body and not hit[1]):
             return None
@@ -1954,18 +1957,24 @@ class Interp:
                 if key not in cache:
                     cache[key] = TOP               # (guards against recursion through the definition itself)
                     saved_scope = self.scope
+                    marks = (len(self.imprecise), len(self.unknown_branches), len(IMPRECISION))
+                    saved_run_init, self.run_init = self.run_init, True       # (a constructor that cannot be interpreted makes the value unknown)
                     try:
                         self.scope = r[1] if isinstance(r[1], (M.ModuleInfo, M.ClassInfo, M.FunctionInfo)) else self.scope
                         self._locals_cache = None
                         st = State({})
                         val = self.ev(rhs, st)
-                        if '__exc' not in st.env and not (val is TOP):
+                        clean = (len(self.imprecise), len(self.unknown_branches)) == marks[:2]
+                        if '__exc' not in st.env and not (val is TOP) and clean:
                             cache[key] = val
                     except AnalysisError:
                         pass
                     finally:
                         self.scope = saved_scope
                         self._locals_cache = None
+                        self.run_init = saved_run_init
+                        # what could not be evaluated here is simply not known (as before): no note against the scenario
+                        del self.imprecise[marks[0]:], self.unknown_branches[marks[1]:], IMPRECISION[marks[2]:]
                 return cache[key]
             return TOP if M.is_unknown(v) else v
         return r
@@ -2058,6 +2067,7 @@ class Interp:
             if owner.fullname not in cache:
                 cache[owner.fullname] = {}
                 saved = (self.scope, getattr(self, '_locals_cache', None), self.h, self.heap)
+                marks = (len(self.imprecise), len(self.unknown_branches), len(IMPRECISION))
                 try:
                     self.scope, self.h, self._locals_cache = owner, Hooks(), None
                     stmts = [x for x in owner.node.body if not isinstance(x, (ast.FunctionDef, ast.AsyncFunctionDef, ast.ClassDef))
@@ -2070,6 +2080,7 @@ class Interp:
                     pass
                 finally:
                     self.scope, self._locals_cache, self.h, self.heap = saved
+                    del self.imprecise[marks[0]:], self.unknown_branches[marks[1]:], IMPRECISION[marks[2]:]
             v = cache[owner.fullname].get(attr, TOP)
             return copy.deepcopy(v) if isinstance(v, (list, dict)) and not any(isinstance(x, (Obj, TextObj)) for x in (v.values() if isinstance(v, dict) else v)) else v
         if owner is not None and attr in owner.assigns:
@@ -2119,6 +2130,9 @@ class Interp:
         if isinstance(base, Obj):
             if attr in base.attrs:
                 return base.attrs[attr]
+            if self.precise_exc and self.heap and getattr(self.h, 'absent_attr', None) is not None and self.h.absent_attr(base, attr):
+                s.env['__exc'] = 'AttributeError'        # the scenario knows that this object has no such attribute (yet)
+                return TOP
             if isinstance(base.attrs.get('__dict'), dict) and attr in ('keys', 'values', 'items', 'get', 'update', 'clear', 'pop', 'setdefault', 'copy') \
                and (m is None or not isinstance(base.cls, M.ClassInfo) or m.find_method(base.cls, attr) is None):
                 return ('boundmethod', base.attrs['__dict'], attr)
@@ -4277,8 +4291,14 @@ class Interp:
                 args[0].pos = len(args[0].items)
                 return None
             if meth == 'pop':
+                if args and not all(isinstance(a, int) and not isinstance(a, bool) for a in args):
+                    self.imprecise.append('list.pop with an index that is not determined: its effect is lost')
+                    return TOP
                 try:
-                    return recv.pop(*[a for a in args if isinstance(a, int)])
+                    return recv.pop(*args)
+                except IndexError:
+                    self._pending_exc = 'IndexError'        # pop from an empty list / index out of range
+                    return TOP
                 except Exception:
                     return TOP
             if meth == 'insert' and len(args) == 2 and isinstance(args[0], int):
